@@ -271,6 +271,9 @@ func spawnWorker(exe, scratch, tag, id, tier string, seed, lo, hi int64, limit t
 
 func runRacePass(root, scratch, id string, seed int64, p *Property, res *runResult) {
 	raceExe := filepath.Join(root, "bin", "vh-race")
+	if e := os.Getenv("VERIF_RACE_EXE"); e != "" {
+		raceExe = e
+	}
 	if _, err := os.Stat(raceExe); err != nil {
 		res.inconcl = append(res.inconcl, "bin/vh-race missing: race pass not run")
 		return
@@ -361,8 +364,12 @@ func firstLines(s string, n int) string {
 func conclude(root string, p *Property, tier string, seed int64, res *runResult, wall time.Duration) int {
 	a := res.agg
 	known := loadKnown(filepath.Join(root, "known_findings.json"))
-	os.MkdirAll(filepath.Join(root, "replay"), 0o755)
-	os.MkdirAll(filepath.Join(root, "evidence"), 0o755)
+	outRoot := root
+	if o := os.Getenv("VERIF_OUT"); o != "" {
+		outRoot = o // scratch runs against a patched copy of the library must not touch the real evidence
+	}
+	os.MkdirAll(filepath.Join(outRoot, "replay"), 0o755)
+	os.MkdirAll(filepath.Join(outRoot, "evidence"), 0o755)
 
 	exit := 0
 	// violations by signature
@@ -395,7 +402,7 @@ func conclude(root string, p *Property, tier string, seed int64, res *runResult,
 			continue
 		}
 		v := firstBySig[s]
-		path := writeReplay(root, p.ID, tier, seed, s, v, a.ViolBySig[s])
+		path := writeReplay(outRoot, p.ID, tier, seed, s, v, a.ViolBySig[s])
 		fmt.Printf("VIOLATION property=%s replay=%s\n", p.ID, path)
 		if v != nil {
 			fmt.Printf("  sig=%s count=%d case=%d: %s\n", s, a.ViolBySig[s], v.K, v.Msg)
@@ -432,7 +439,7 @@ func conclude(root string, p *Property, tier string, seed int64, res *runResult,
 			if deathSeen[sig] > 1 {
 				continue // one report per class
 			}
-			path := writeReplay(root, p.ID, tier, seed, sig, d, 1)
+			path := writeReplay(outRoot, p.ID, tier, seed, sig, d, 1)
 			fmt.Printf("VIOLATION property=%s replay=%s\n  sig=%s case=%d: %s\n", p.ID, path, sig, d.K, clip(d.Msg, 600))
 		} else {
 			res.inconcl = append(res.inconcl, fmt.Sprintf("case %d: %s", d.K, clip(d.Msg, 300)))
@@ -505,7 +512,7 @@ func conclude(root string, p *Property, tier string, seed int64, res *runResult,
 		"violations":  unlisted + deathViol,
 	}
 	b, _ := json.MarshalIndent(ev, "", " ")
-	os.WriteFile(filepath.Join(root, "evidence", p.ID+".json"), append(b, '\n'), 0o644)
+	os.WriteFile(filepath.Join(outRoot, "evidence", p.ID+".json"), append(b, '\n'), 0o644)
 
 	fmt.Printf("%s %s seed=%d: %d cases, %d held (%d distinct non-trivial shapes, %d cells), %d unspecified, %d trivial, %d violating (%d unlisted classes), %.1fs\n",
 		p.ID, tier, seed, a.Evaluations, a.Held, distinct, len(a.Cells), a.Unspec, a.Trivial, a.Violated, unlisted, wall.Seconds())
